@@ -40,7 +40,10 @@ RULE = ("(a) call-site cross-check: sampler runs (clustering on/off, both kernel
         "continues the ambient stream; every way a file without stored position can arise (key removed, rng_state=None, "
         "StateManager.save_state format, checkpoints written while the sampler cannot be pickled — none on a tree that refuses to "
         "write them) goes through the property oracle: after load_state the stream still depends on the ambient seed, no batch "
-        "of the resumed run is a bit-copy of an earlier one, the resumed run depends on the ambient stream. "
+        "of the resumed run is a bit-copy of an earlier one, the resumed run depends on the ambient stream; three run() calls with "
+        "growing n_total on one object after load_state / run(resume_state_path) / a fresh run, the ambient stream reseeded before "
+        "each: a call that does not load never starts from an earlier iteration's generator state and what follows it differs "
+        "for two ambient seeds. "
         "(i) call-graph: call edges observed with sys.setprofile on real runs must be in the static graph of G3b. "
         "(j) pool: a pool with an order-preserving map gives the serial fingerprint.")
 MODELLED = ["MT19937 is an abstract generator: any family of deterministic state transformers `next k` (one per request kind) and a "
@@ -816,6 +819,68 @@ def positionless_violations(configs, counter=None):
     return bad
 
 
+def multirun_violations(configs, counter=None):
+    """property oracle on the REAL code for a sampler object on which run() is called SEVERAL times after its state came from a
+    checkpoint (load_state(path), or run(resume_state_path=path)) or from a fresh run: growing n_total, the ambient stream
+    reseeded before every call.  Only a call that LOADS a file may put the stream to a stored position; every later call must
+    continue the stream it finds: (A) its first iteration does not start from a generator state at which an earlier iteration
+    of this object started; (B) what follows the call differs for two different ambient seeds; (C) no batch is a bit-copy of an
+    earlier batch."""
+    import tempfile
+    bad = []
+    for cfg in configs:
+        with tempfile.TemporaryDirectory() as d:
+            s0, log0, obs0, cks = _writer(cfg, d)
+            ks = sorted(cks)
+            ck = cks[ks[len(ks) // 2]]
+            n = _n_total(cfg)
+            for how in ("load_state", "resume_state_path", "fresh run"):
+                if counter is not None:
+                    counter(how)
+                desc = {"config": {"clustering": cfg[0], "kernel": cfg[1], "resample": cfg[2]}, "random_state": cfg[4],
+                        "like": cfg[3], "multirun": how}
+                after = {}
+                found = None
+                for inst, base in (("A", 100), ("B", 200)):
+                    s = _mk(cfg)
+                    log, obs = ob.EventLog(), []
+                    with ob.trace_events(log), ob.observe_iterations(s, log, obs):
+                        calls = []
+                        if how == "load_state":
+                            ob.run_quiet(lambda: s.load_state(ck))
+                            calls = [dict(n_total=2 * n), dict(n_total=4 * n), dict(n_total=6 * n)]
+                        elif how == "resume_state_path":
+                            calls = [dict(n_total=2 * n, resume_state_path=ck), dict(n_total=4 * n), dict(n_total=6 * n)]
+                        else:
+                            calls = [dict(n_total=n), dict(n_total=3 * n), dict(n_total=5 * n)]
+                        for i, kw in enumerate(calls):
+                            np.random.seed(base + i)
+                            np.random.rand(3)
+                            n_before = len(obs)
+                            ob.run_quiet(lambda: s.run(progress=False, **kw))
+                            after[(inst, i)] = np.random.rand(3).tolist()
+                            loads = "resume_state_path" in kw or (how == "load_state" and i == 0)
+                            if not loads and i > 0 and len(obs) > n_before and found is None \
+                                    and obs[n_before].start_state in [o.start_state for o in obs[:n_before]]:
+                                j = [o.start_state for o in obs[:n_before]].index(obs[n_before].start_state)
+                                found = (f"run() call #{i + 1} (n_total={kw['n_total']}) on a sampler whose state came from {how} starts from the "
+                                         f"generator state at which iteration {j} of an earlier call on this object started: the stream was put back")
+                    u = s.state.get_history("u")
+                    first_new = {"load_state": ks[len(ks) // 2], "resume_state_path": ks[len(ks) // 2], "fresh run": 1}[how]
+                    copies = [(j, i) for i in range(first_new, len(u)) for j in range(i) if np.array_equal(u[i], u[j])]
+                    if copies and found is None:
+                        found = f"after {how} and three run() calls batch {copies[0][1]} of the history is a bit-for-bit copy of batch {copies[0][0]}"
+                if found is None:
+                    for i in (1, 2):
+                        if after[("A", i)] == after[("B", i)]:
+                            found = (f"after run() call #{i + 1} on a sampler whose state came from {how} the global stream is the same for "
+                                     f"ambient seeds {100 + i} and {200 + i} (first draws {after[('A', i)]}): the call reset it to a fixed position")
+                            break
+                if found:
+                    bad.append(dict(desc, what=found))
+    return bad
+
+
 def suite_resume(tier):
     """what save / run(resume_state_path=…) do to the stream, against Model.RngRun (saveState / loadState / runSampling)"""
     import tempfile
@@ -962,6 +1027,16 @@ def suite_resume(tier):
             if fu[0] == fu[1]:
                 c.disagree(input=(cfg, "legacy checkpoint"), impl="resumed runs identical for ambient seeds 1 and 2",
                            model="ambient dependence preserved")
+    # several run() calls on one object after load_state / run(resume_state_path) / a fresh run, ambient reseeded in between:
+    # only the loading call may restore a position (model: C09_run_with_history_continues for every later call)
+    mr_cfgs = [(False, "rwm", "syst", "plain", 21)] + ([(True, "tpcn", "mult", "bimodal", 22), (False, "tpcn", "mult", "half", 26)] if tier == "thorough" else [])
+    for cfg in mr_cfgs:
+        hows = []
+        for bviol in multirun_violations([cfg], counter=hows.append):
+            c.disagree(input=(cfg, bviol["multirun"]), impl=bviol["what"], model="a run() that does not load continues the stream it finds (C09_run_with_history_continues, C09_second_run_continues)")
+        for h in hows:
+            c.case(("multirun", cfg, h), True)
+            c.count("three_run_calls_after_" + h.replace(" ", "_"))
     # files without a stored stream position, however they arise: no reset, no replay (model: loadState none)
     pl_cfgs = [(False, "rwm", "syst", "plain", 21)] + ([(True, "tpcn", "mult", "bimodal", 22), (False, "tpcn", "mult", "half", 26)] if tier == "thorough" else [])
     for cfg in pl_cfgs:
@@ -1117,6 +1192,8 @@ def search(tier, hints):
     if len(found) < 5:
         found += positionless_violations([(False, "rwm", "syst", "plain", 21), (True, "tpcn", "mult", "bimodal", 22)])
     if len(found) < 5:
+        found += multirun_violations([(False, "rwm", "syst", "plain", 21), (True, "tpcn", "mult", "bimodal", 22)])
+    if len(found) < 5:
         found += rerun_violations([(False, "rwm", "syst", "plain", 21), (True, "tpcn", "mult", "plain", 23)])
     if len(found) < 5:
         found += pool_violations([(False, "rwm", "syst", "plain", 31), (True, "tpcn", "mult", "bimodal", 32)])
@@ -1130,6 +1207,10 @@ def replay(obj):
         return witnesses.ALL[f["replay"]["witness"]]()
     if "op" in f:
         b = reset_violations([f["op"]])
+    elif f.get("multirun"):
+        cfg = f["config"]
+        t = (cfg["clustering"], cfg["kernel"], cfg["resample"], f.get("like", "plain"), f["random_state"])
+        b = [x for x in multirun_violations([t]) if x["multirun"] == f["multirun"]]
     elif f.get("positionless"):
         cfg = f["config"]
         t = (cfg["clustering"], cfg["kernel"], cfg["resample"], f.get("like", "plain"), f["random_state"])
